@@ -139,7 +139,9 @@ def check_one(c, fn, argv):
             except Exception as e:  # noqa: BLE001
                 fails.append((f"post:{nm}", f"clause raised {e!r}"))
                 continue
-            if not ok:
+            if not isinstance(ok, bool) and type(ok).__name__ not in ("bool_", "bool"):
+                fails.append((f"post:{nm}", f"clause is not boolean: {ok!r}"[:200]))
+            elif not ok:
                 fails.append((f"post:{nm}", "false"))
         for exc, cond in c.raises.items():
             if f"raises:{exc}" in c.native_skip or needs_calls(cond):
